@@ -212,7 +212,7 @@ def r3_arity_dispatch_shape(ctx):
     if call is None:
         raise AnalysisError("anchor vanished: Var.__call__")
     rets = [P.un(r.value) for r in ast.walk(call) if isinstance(r, ast.Return)]
-    ok = len(rets) == 1 and rets[0].startswith("self.value(*args")
+    ok = rets == ["self.value(*args, **kwargs)"]
     ctx.ob("C08.R3", f"{RT}::Var.__call__::{' | '.join(rets)}", RT, call.lineno, ok, "" if ok else "calling through a Var does not call its current value (thread bindings of dynamic Vars are bypassed)")
 
 
@@ -233,7 +233,9 @@ SELFTEST = [
     {"name": "recur rest spliced reversed", "file": RT, "expect": "C08.R4",
      "old": "                return tuple(itertools.chain(inits, final))\n", "new": "                return tuple(itertools.chain(final, inits))\n"},
     {"name": "seeded C08/b: Var call bypasses thread bindings", "file": RT, "expect": "C08.R3",
-     "old": "        return self.value(*args, *kwargs)", "new": "        return self._root(*args, *kwargs)"},
+     "old": "        return self.value(*args, **kwargs)", "new": "        return self._root(*args, **kwargs)"},
+    {"name": "Var call passes keyword names positionally (the repaired defect)", "file": RT, "expect": "C08.R3",
+     "old": "        return self.value(*args, **kwargs)", "new": "        return self.value(*args, *kwargs)"},
     # twins
     {"name": "twin: rename tail variable", "file": RT, "expect": None, "count": "all",
      "old": "num_missing_args", "new": "missing"},
